@@ -35,7 +35,7 @@ def explore(ctx):
     from fontTools.ttLib import TTFont
     rng = ctx.subrng("cff")
     cases, meta = [], []
-    for i in range(ctx.budget(6, 40)):
+    for i in range(ctx.budget(8, 40)):
         desc = gen_component_font(rng, n=rng.randint(3, 8), widths="int")
         for g in desc["glyphs"]:   # integer coordinates/offsets: rounding is not what is under test here
             g["contours"] = [[(Fr(round(x)), Fr(round(y)), t) for x, y, t in c] for c in g["contours"]]
@@ -47,10 +47,14 @@ def explore(ctx):
         # with maps that swap two names, chain (a->b, b->c) or are plain
         prod = i % 2 == 1
         if prod:
-            kind = ["swap", "chain", "plain"][(i // 2) % 3]
+            kind = ["swap", "collide", "chain", "plain"][(i // 2) % 4]
             a, b, c = names[0], names[1], names[2]
+            desc["glyphOrder"] = list(names)      # the production names are handed out in glyph order
+            # collide: two glyphs get the same production name (the second is de-duplicated to "dup.1") and a later glyph
+            # is literally given that de-duplicated name
             desc["lib"] = {"public.postscriptNames": {"swap": {a: b, b: a}, "chain": {a: b, b: c, c: "glyph.c"},
-                                                      "plain": {a: "uni0041.x", b: "glyph00002"}}[kind]}
+                                                      "plain": {a: "uni0041.x", b: "glyph00002"},
+                                                      "collide": {a: "dup", b: "dup", c: "dup.1"}}[kind]}
         base = None
         for opt, subr, ver in GRID:
             kw = {"optimizeCFF": opt, "cffVersion": ver, "useProductionNames": prod}
